@@ -119,8 +119,8 @@ func TestJudgeBodyOracle(t *testing.T) {
 }
 
 func TestIDMatches(t *testing.T) {
-	yes := [][3]string{{"1e2", "number", "100"}, {"1.5", "number", "1.5"}, {`"a"`, "string", `"a"`}, {`"é"`, "string", `"é"`}, {"", "absent", "null"}, {"true", "invalid", "null"}, {"true", "invalid", "true"}}
-	no := [][3]string{{"1", "number", `"1"`}, {"1", "number", "null"}, {`"1"`, "string", "1"}, {`""`, "string", "null"}, {"1", "number", "2"}, {"0", "number", "null"}}
+	yes := [][3]string{{"1e2", "number", "100"}, {"1.5", "number", "1.5"}, {`"a"`, "string", `"a"`}, {`"é"`, "string", `"é"`}, {"", "absent", "null"}, {"true", "invalid", "null"}}
+	no := [][3]string{{"1", "number", `"1"`}, {"1", "number", "null"}, {`"1"`, "string", "1"}, {`""`, "string", "null"}, {"1", "number", "2"}, {"0", "number", "null"}, {"true", "invalid", "true"}}
 	for _, c := range yes {
 		if !idMatches(c[0], c[1], c[2]) {
 			t.Errorf("expected %v to match", c)
